@@ -610,7 +610,33 @@ def m_to_be_bytes(I, fr, fn, a):
     return [z3.simplify(z3.Extract(8 * i + 7, 8 * i, v)) for i in reversed(range(bits // 8))]
 def m_from_be_bytes(I, fr, fn, a): return m_from_le_bytes(I, fr, fn, [list(reversed(a[0]))])
 
+def _cb(c):
+    b = choice_bool(c)
+    return z3.BoolVal(b) if isinstance(b, bool) else b
+def _mk_choice(b):
+    b = z3.simplify(b) if isinstance(b, z3.ExprRef) else b
+    if isinstance(b, z3.ExprRef) and z3.is_true(b): b = True
+    elif isinstance(b, z3.ExprRef) and z3.is_false(b): b = False
+    return Agg('subtle::Choice', [b])
+def m_int_cteq(I, fr, fn, a):
+    x, y = D(I, a[0]), D(I, a[1])
+    if isinstance(x, int) and isinstance(y, int): return _mk_choice(x == y)
+    return _mk_choice(_bv_eq(x, y))
+def m_choice_binop(I, fr, fn, a):
+    x, y = _cb(D(I, a[0])), _cb(D(I, a[1]))
+    op = 'and' if 'BitAnd' in fn else ('or' if 'BitOr' in fn else 'xor')
+    r = {'and': z3.And(x, y), 'or': z3.Or(x, y), 'xor': z3.Xor(x, y)}[op]
+    if fn.endswith('_assign'): I.store(a[0], _mk_choice(r)); return UNIT
+    return _mk_choice(r)
+def m_choice_unwrap_u8(I, fr, fn, a):
+    b = choice_bool(D(I, a[0]))
+    if isinstance(b, bool): return int(b)
+    return z3.If(b, z3.BitVecVal(1, 8), z3.BitVecVal(0, 8))
+
 STD_FNS = [
+    (r'^<[ui](8|16|32|64|128|size) as subtle::ConstantTimeEq>::ct_eq$', m_int_cteq),
+    (r'^<subtle::Choice as core::ops::(BitAnd|BitOr|BitXor)(Assign)?>::(bitand|bitor|bitxor)(_assign)?$', m_choice_binop),
+    (r'^subtle::Choice::unwrap_u8$', m_choice_unwrap_u8),
     (r'^<[ui](8|16|32|64|128|size) as core::cmp::Ord>::(min|max)$', m_int_minmax), (r'^core::cmp::(min|max)::<[ui](8|16|32|64|128|size)>$', m_int_minmax),
     (r'^<[ui](8|16|32|64|128|size) as core::cmp::Ord>::cmp$', m_int_cmp),
     (r'^core::num::<impl \w+>::wrapping_(add|sub|mul)$', m_int_wrapping), (r'^core::num::<impl \w+>::checked_(add|sub|mul|div|rem)$', m_int_checked),
